@@ -70,7 +70,7 @@ def cases(tier, seed):
                     out.append({"kind": "single", "D": D, "shape": list(shape), "k": k, "p": p})
     # multi-image entry
     rng = np.random.default_rng([seed, 2, 999])
-    n_mi = 40 if tier == "quick" else 220
+    n_mi = 40 if tier == "quick" else 600
     for j in range(n_mi):
         D = int(rng.choice([1, 2, 2, 3, 3]))
         shape = sh[D][int(rng.integers(len(sh[D])))]
